@@ -36,6 +36,26 @@ CHECKS = {
          "C08_isolation for every task table, every list of uses and every interleaving; layering laws for env/variables/dir. Tied to scheduler.go by pipelines of 2..6 stages sharing one task in every dependency arrangement (every DAG on <=3, sampled/all on 4) with distinct overrides and random durations, followed by a direct run and a second pipeline.",
          "Trusted: Coq kernel; store/micro-step transcription of runStage (private copy); containers as association lists compared extensionally; Go engine stageov, python driver. No axioms.",
          "DESIGN.md section 6 C08", "stageov"),
+ "C09": ("Coq proof: precedence law of the job/process environment over seven layers and of the working directory (first defined wins, any names and values) on a model of Run/CompileTask/runStage/Execute; differential correspondence through the real binary with a controlled parent environment",
+         "C09_precedence / C09_passthrough / C09_task_name / C09_dir for all layer contents. Tied to the code by all 63 subsets of the six definable levels x two value orders x direct/stage, and all subsets of the dir levels from two start directories, through the built binary.",
+         "Trusted: Coq kernel; association-list transcription of the environment-building expressions; mvdan/sh ListEnviron (after the repair no name reaches it twice); python driver + binary. No axioms.",
+         "DESIGN.md section 6 C09", "cli"),
+ "C10": ("Coq proof: precedence law for template variables, argv split law (first `--`), and render-failure-before-execution on the TaskRun model; differential correspondence through the real binary",
+         "C10_precedence / C10_builtins / C10_args_split / C10_undefined_variable_fails_before_executing for all layer contents and all argument vectors. Tied to the code by all subsets of the five variable levels, argv vectors over the statement's alphabet, an undefined variable at every command position, through the built binary.",
+         "Trusted: Coq kernel; transcription of Config.merge/--set/buildTaskRunner/Run/runStage variable merging and of taskArgs and the target loops; text/template missingkey=error restricted to {{.name}}; urfave/cli; python driver + binary. No axioms.",
+         "DESIGN.md section 6 C10", "cli"),
+ "C11": ("Coq proof: captured output = concatenation of the executed jobs' stdout (closed form of the TaskRun model), .Output chaining law of execute's loop, character-wise characterisation of the exported name, and - composed with the scheduler LTS and C01 - in every execution a starting stage finds each completed dependency's output in the runner environment; observed captures, environment dumps and rendered .Output values of the real TaskRunner/Scheduler judged in Coq",
+         "C11_captured_exactly / C11_dot_output_is_previous / C11_name_characterwise / C11_name_shape / C11_dependants_see_it for all tasks, names, outputs, graphs and schedules. Tied to the code by every printable ASCII character in names, random names x exportAs x commands x variations x stdout/stderr chunks (LF CR TAB quotes $ % ` { } UTF-8, empty, unterminated, 64 KiB), and random DAG pipelines in shuffled declaration order where every stage dumps its environment.",
+         "Trusted: Coq kernel; transcription of execute / storeTaskOutput / Run's env merge; commands abstracted to the chunks they write; generated command shapes, coreutils env/od; Go engine taskrun, python driver. Kernel limits on environment size are outside the model (outputs <= 64 KiB). No axioms.",
+         "DESIGN.md section 6 C11", "taskrun"),
+ "C12": ("Coq proof (partial): safety and deadlock-freedom invariants and a decreasing measure over an LTS of any number of Run and Cancel threads interleaved arbitrarily (no panic, waiting Cancel never stuck, executions bounded, nothing starts after the flag, success means every command ran); the real TaskRunner/Scheduler in a child process per scripted scenario is monitored in Coq",
+         "PARTIAL: the hand-shake logic is proved for all thread counts and interleavings; that signals really end commands, the 2 s kill grace and wall-clock bounds are observed by the harness only (0..4 tasks in flight x 0..3 waiting, Cancel before/during/between/after/twice/from a stage condition error).",
+         "Trusted: Coq kernel; LTS transcription of Run's in-flight accounting and Cancel (mutex+cond as atomic steps); environment rule 'a command in progress when the context is cancelled ends'; sync/context primitives; Go engine taskrun (child process), python driver. No axioms.",
+         "DESIGN.md section 6 C12", "taskrun-child"),
+ "C14": ("Coq proof: counting and ordering invariants over an LTS of n task runs over k contexts with sync.Once start-up, for all interleavings (up once and first, before/after once each per run, down once per used context after everything, nothing after Finish); observed traces of the real TaskRunner (simultaneous, sequential, through the scheduler) and of the binary judged in Coq",
+         "C14_no_hook_twice / C14_up_exactly_once / C14_order / C14_up_fails / C14_before_and_after_once_each / C14_down_once_for_used_contexts / C14_second_finish_runs_nothing for all run/context assignments and schedules. Tied to the code by 1..8 runs over 1..3 contexts, all task shapes, failing up/before, through taskrun engine and CLI.",
+         "Trusted: Coq kernel; LTS transcription of Run/contextForTask/Finish and ExecutionContext hooks; sync.Once as 'first arriver runs, others wait'; Go engine taskrun, python driver + binary. No axioms.",
+         "DESIGN.md section 6 C14", "taskrun+cli"),
 }
 
 PENDING = {}
